@@ -60,6 +60,12 @@ class Run:
         self.traces += v.total
         self.tlc_runs.append({"run": label, "traces": v.total, "accepted": v.accepted,
                               "distinct": v.distinct, "generated": v.generated, "wall_s": round(v.wall, 2)})
+        if v.infos:  # notes printed by a monitor: reported, never a verdict
+            notes = self.extra.setdefault("notes", [])
+            for i in v.infos:
+                if len(notes) < 50:
+                    notes.append([str(x) for x in i[1:]])
+            print("NOTE %s: %d note(s) from %s, e.g. %s" % (self.pid, len(v.infos), label, [str(x) for x in v.infos[0][1:]]))
 
     def sample(self, s: Any, limit: int = 6) -> None:
         if len(self.samples) < limit:
@@ -137,13 +143,27 @@ class Run:
         return 1 if self.violations else 0
 
 
+class _NoStopIteration:
+    """A StopIteration escaping a worker function would silently end pool.map's result for that item (it is read as the end
+    of an iterator): turn it into an ordinary error."""
+
+    def __init__(self, fn):
+        self.fn = fn
+
+    def __call__(self, x):
+        try:
+            return self.fn(x)
+        except StopIteration as e:
+            raise RuntimeError("StopIteration escaped from %s" % getattr(self.fn, "__name__", self.fn)) from e
+
+
 def pmap(fn, items, procs: int = 16, chunk: int = 64):
     """Parallel map with forked workers (the library is imported once in the parent)."""
     import multiprocessing as mp
 
     items = list(items)
     if len(items) < 2 * chunk or procs <= 1:
-        return [fn(x) for x in items]
+        return [_NoStopIteration(fn)(x) for x in items]
     ctx = mp.get_context("fork")
     with ctx.Pool(procs) as pool:
-        return pool.map(fn, items, chunksize=chunk)
+        return pool.map(_NoStopIteration(fn), items, chunksize=chunk)
